@@ -279,6 +279,16 @@ class State:
             s.add(e)
         return s.check() != z3.unsat
 
+    def must_qf(self, cond, timeout_ms=400) -> bool:
+        """cheap: is cond implied by the quantifier-free part of the path condition?  (False = not shown)"""
+        q = z3.Solver()
+        q.set("timeout", timeout_ms)
+        for p in self.pc:
+            if not _has_quant(p):
+                q.add(p)
+        q.add(z3.Not(cond))
+        return q.check() == z3.unsat
+
     def must(self, cond) -> bool:
         """is cond implied by the path condition?"""
         # cheap attempt first: the quantifier-free part of the path condition (a subset of the assumptions: `unsat` carries over)
